@@ -521,6 +521,7 @@ void s_threads() {
   int nthr = 1 + (int)P(0, 3);
   bool full = P(1, 2), foreign = P(2, 2);
   g_tls_dtor_calls = 0;
+  int native_keys0 = shim::live_count(shim::K_KEY);
   if (P(3, 4) == 0) shim::fail_setname_kth = 1 + (int)P(4, 3);      // the native call that names the thread is refused
   arm();
   ThrArg a; a.k = p_uthread_local_new(nullptr); a.kd = p_uthread_local_new(tls_dtor);
@@ -534,6 +535,10 @@ void s_threads() {
   wait_all_others();          // detached and foreign threads finish while the plan is still armed: their exit paths allocate nothing that may leak
   disarm();
   shim::fail_setname_kth = 0;
+  // each key object owns at most one native key (the library leaves it alive on purpose when the object is freed); more than
+  // that is a native key created by a call that failed and never given back
+  int made = shim::live_count(shim::K_KEY) - native_keys0, objs = (a.k ? 1 : 0) + (a.kd ? 1 : 0);
+  if (made > objs) violate("resource_left_after_failed_alloc", C->name, "%d native TLS key(s) live for %d key object(s): a key created inside a failed call was not deleted", made, objs);
   p_uthread_local_free(a.k); p_uthread_local_free(a.kd);
 }
 
@@ -543,6 +548,9 @@ void s_loader() {
   const char *lib = nullptr;
   for (const char *c : cands) if (!lib && access(c, R_OK) == 0) lib = c;
   if (!lib) infra_error("no libm.so.6 found for the library loader scenario");
+  ensure_files();
+  std::string probe_mod = g_tmpdir.substr(0, g_tmpdir.rfind('/')) + "/libvpprobe.so";      // a module nothing else in the process has loaded
+  if (P(0, 2)) lib = probe_mod.c_str();
   PLibraryLoader *l = p_library_loader_new(lib);
   if (l) probe("nomem.loader_loaded");
   if (l) { (void)p_library_loader_get_symbol(l, "cos"); (void)p_library_loader_get_symbol(l, "no_such_symbol_here"); pchar *err = p_library_loader_get_last_error(l); p_free(err); }
